@@ -143,7 +143,7 @@ def search_lexer(seed=0, maxlen=3, extra_random=3000):
 
 def gen_programs(rnd, n, depth=3):
     """well-formed, fully closed programs over all nine structure kinds and the modifiers"""
-    atoms = ["1", "2", "+", "n", "`ab`", "\\c", "‛xy", "»ab»", "«cd«", "⁺q", "→v", "←v", "d", "kA", "X", "x"]
+    atoms = ["1", "2", "+", "n", "`ab`", "\\c", "‛xy", "»ab»", "«cd«", "⁺q", "→v", "←v", "d", "kA", "X", "x", "`a\n`", "`\n\n`", "«c\n«", "`a `", "` `"]
 
     def prog(d):
         k = rnd.choice([0, 1, 1, 2, 2, 3])  # empty branches are legal programs too
@@ -183,18 +183,23 @@ def gen_programs(rnd, n, depth=3):
 def truncations(src):
     """the programs obtained from the closed program src by dropping trailing closers, one at
     a time: closing brackets / semicolons, then (if it is a closing one) the string delimiter"""
-    tokenise, *_ = real()
+    from contracts import lexspec
+
+    def spec(text):  # what is a closer is decided by the lexer's specification, not by the lexer under test
+        return lexspec.lex(text, False)
+
     out = []
     cur = src
     while cur and cur[-1] in "])}⟩;":
         # only a character the lexer reads as a GENERAL token is a closer (not one inside a literal)
-        toks = tokenise(cur)
+        toks = spec(cur)
         if not toks or toks[-1].name.value != "general" or toks[-1].value != cur[-1]:
             break
         cur = cur[:-1]
         out.append(cur)
-    if cur.endswith("`"):
-        a, b = tokenise(cur), tokenise(cur[:-1])
-        if a == b and a and a[-1].name.value == "string":
-            out.append(cur[:-1])
+    for delim, kind in (("`", "string"), ("«", "compressed_string"), ("»", "compressed_number")):
+        if cur.endswith(delim):
+            a, b = spec(cur), spec(cur[:-1])
+            if a == b and a and a[-1].name.value == kind:  # a closing delimiter: by the specification the same tokens without it
+                out.append(cur[:-1])
     return out
